@@ -98,6 +98,7 @@ type Harness struct {
 	PreferCVC5 bool
 	HashCollisions bool // allow 64-bit hash collisions between different streams
 	MaxSwitches int
+	NoStubs     bool // run the real functions even where the harness package defines stubs
 	Reach     []string
 	Tier      string
 }
@@ -196,6 +197,9 @@ func (e *Engine) Stub(orig, repl *ssa.Function) {
 func (e *Engine) stubFor(fn *ssa.Function, h *Harness) *ssa.Function {
 	rs := e.stubs[fn]
 	if len(rs) == 0 {
+		return nil
+	}
+	if h != nil && h.NoStubs {
 		return nil
 	}
 	if h != nil && h.Fn != nil {
